@@ -30,6 +30,121 @@ type funcRecord struct {
 	Ord  int      `json:"ord"` // position among the declarations of its package (files in name order)
 }
 
+type structRecord struct {
+	Rel    string   `json:"pkg"`
+	Name   string   `json:"name"`
+	Fields []string `json:"fields"` // "name type", in declaration order
+}
+
+type inventoryFile struct {
+	Functions []funcRecord   `json:"functions"`
+	Structs   []structRecord `json:"structs"`
+}
+
+var fieldAlias = map[*types.Var]string{} // field object of the analysed tree -> listed field name
+
+// astFieldName: the listed name of the field an identifier (selector or composite-literal key) denotes
+func astFieldName(info *types.Info, id *ast.Ident) string {
+	if v, ok := info.Uses[id].(*types.Var); ok && v.IsField() {
+		return fieldName(v)
+	}
+	return id.Name
+}
+
+// fieldName: the listed name of a struct field (its current name unless it was renamed)
+func fieldName(v *types.Var) string {
+	if a, ok := fieldAlias[v]; ok {
+		return a
+	}
+	return v.Name()
+}
+
+func structInventory(pkgs map[string]*packages.Package) []structRecord {
+	var out []structRecord
+	var rels []string
+	for rel := range pkgs {
+		rels = append(rels, rel)
+	}
+	sort.Strings(rels)
+	q := func(p *types.Package) string { return p.Name() }
+	for _, rel := range rels {
+		sc := pkgs[rel].Types.Scope()
+		for _, n := range sc.Names() {
+			tn, ok := sc.Lookup(n).(*types.TypeName)
+			if !ok {
+				continue
+			}
+			st, ok := tn.Type().Underlying().(*types.Struct)
+			if !ok {
+				continue
+			}
+			r := structRecord{Rel: rel, Name: n}
+			for i := 0; i < st.NumFields(); i++ {
+				r.Fields = append(r.Fields, st.Field(i).Name()+" "+types.TypeString(st.Field(i).Type(), q))
+			}
+			out = append(out, r)
+		}
+	}
+	return out
+}
+
+// resolveFieldRenames: a listed field that is missing from its struct is matched with the one new field of the
+// same type (preferring the same position)
+func resolveFieldRenames(pkgs map[string]*packages.Package, ref []structRecord) {
+	q := func(p *types.Package) string { return p.Name() }
+	for _, r := range ref {
+		p := pkgs[r.Rel]
+		if p == nil || p.Types == nil {
+			continue
+		}
+		tn, ok := p.Types.Scope().Lookup(r.Name).(*types.TypeName)
+		if !ok {
+			continue
+		}
+		st, ok := tn.Type().Underlying().(*types.Struct)
+		if !ok {
+			continue
+		}
+		listed := map[string]bool{}
+		for _, f := range r.Fields {
+			listed[strings.SplitN(f, " ", 2)[0]] = true
+		}
+		have := map[string]bool{}
+		for i := 0; i < st.NumFields(); i++ {
+			have[st.Field(i).Name()] = true
+		}
+		for idx, f := range r.Fields {
+			parts := strings.SplitN(f, " ", 2)
+			if have[parts[0]] || len(parts) != 2 {
+				continue
+			}
+			var cands []*types.Var
+			for i := 0; i < st.NumFields(); i++ {
+				fv := st.Field(i)
+				if !listed[fv.Name()] && types.TypeString(fv.Type(), q) == parts[1] {
+					if _, taken := fieldAlias[fv]; !taken {
+						cands = append(cands, fv)
+					}
+				}
+			}
+			var pick *types.Var
+			if len(cands) == 1 {
+				pick = cands[0]
+			} else if len(cands) > 1 && idx < st.NumFields() {
+				for _, c := range cands {
+					if c == st.Field(idx) {
+						pick = c
+					}
+				}
+			}
+			if pick != nil {
+				fieldAlias[pick] = parts[0]
+				renameLog = append(renameLog, fmt.Sprintf("field %s.%s.%s is analysed as %s (renamed)", r.Rel, r.Name, pick.Name(), parts[0]))
+			}
+		}
+	}
+}
+
 var (
 	tablesDir string                    // set by main
 	funcAlias = map[*types.Func]string{} // function object of the analysed tree -> listed simple name (without receiver)
@@ -95,7 +210,7 @@ func fingerprint(info *types.Info, fd *ast.FuncDecl) []string {
 			}
 		case *ast.SelectorExpr:
 			if v, ok := info.Uses[x.Sel].(*types.Var); ok && v.IsField() {
-				fp = append(fp, "field:"+v.Name())
+				fp = append(fp, "field:"+fieldName(v))
 			}
 		case *ast.BasicLit:
 			if x.Kind == token.STRING || x.Kind == token.CHAR {
@@ -234,10 +349,12 @@ func resolveRenames(pkgs map[string]*packages.Package) {
 	if err != nil {
 		return
 	}
-	var ref []funcRecord
-	if json.Unmarshal(b, &ref) != nil {
+	var inv inventoryFile
+	if json.Unmarshal(b, &inv) != nil {
 		return
 	}
+	ref := inv.Functions
+	resolveFieldRenames(pkgs, inv.Structs)
 	type cur struct {
 		fd   *ast.FuncDecl
 		info *types.Info
